@@ -129,8 +129,14 @@ class Com():
             })
 
         def add_str(s):
+            # Append to the last line of the command itself: the last line may
+            # be a verification condition (after a loop), which must stay a
+            # condition that can be parsed back.
             assert len(lines) > 0
-            lines[-1]['str'] += ';'
+            for line in reversed(lines):
+                if line['ty'] == 'com':
+                    line['str'] += ';'
+                    break
 
         def rec(cmd):
             nonlocal indent
